@@ -2,7 +2,8 @@
 
 Two parts (DESIGN.md, C18):
   (A) trace conformance to the proved-explicit model Model/RandProg.v for the mirrored operations
-      (random scorer, the two hold-out splits, DBAL triple sub-sampling): the requests the real
+      (random scorer, the two hold-out splits, DBAL triple sub-sampling, FixedSize / OptimalSize smoothers, the PlatePermutation and
+      SampleSegregating generators): the requests the real
       operation makes on its generator, and its output, equal what the model program produces when it
       is replayed on the recorded answers (wire cases, aspect "repeatable").
   (B) the dynamic check, which is what detects defects: every randomised operation is run TWICE with an
@@ -52,12 +53,28 @@ THEOREMS = {
     "C18_random_scorer_trace": "model of RandomScorer.score: one uniform request per plate, in plate order; output pairs plates with the answers in order",
     "C18_balanced_holdout_trace": "model of the plate-balanced hold-out: one choice request per unobserved plate, in plate order, pool = the plate's rows, k = ceil(size*fraction)",
     "C18_global_draws_refuted": "a program whose draws are served from the GLOBAL component (what the legacy Gibbs sampler does) depends on and perturbs it: concrete witness",
+    "C18_prog_eq_replay": "program equality (prog_eq_on: same requests in the same order, same outputs) for all answers => equal replay on EVERY answer list, failures included",
+    "C18_prog_eq_replay_valid": "program equality on the answers a contract admits => a successful replay whose consumed answers satisfy the contract is a replay of the other program with the same output and request trace",
+    "C18_prog_eq_exec": "program equality on a contract => equal outcome (output, requests, answers, final state) against every generator state machine whose answers satisfy the contract",
+    "C18_model_is_source_random_scorer": "the translation of the WHOLE method RandomScorer.score (a resumption program whose only request-making primitive is rng.random()) equals the hand-written random_scorer_prog (output wrapped in Ok) for all plate-key lists without duplicates (dict keys) and all answers",
+    "C18_model_is_source_random_holdout": "the translation of the WHOLE function create_random_holdout equals: ValueError (5) if fraction outside [0,1], else random_holdout_prog followed by the two Screen(...) constructions on the vector of the held rows - for ANY screen type, size and meaning of the constructions, and all answers satisfying numpy's choice contract",
+    "C18_model_is_source_balanced_holdout": "the same for the WHOLE function create_plate_balanced_holdout_set_among_masked_plates and balanced_holdout_prog, for every screen whose plates' row lists have screen.size entries in all, each a row number (true of every Screen: a row lies on exactly one plate)",
+    "C18_model_is_source_dbal_subsample": "the translation of the statement run of dbal_fast_gauss_scoring_vectorized from `n_theta_combinations = comb(...)` to `unpacked_indices = rng.choice(...)` IS dbal_subsample_prog (Leibniz equality) for all n_thetas, max_combos",
+    "C18_model_is_source_fixed_size_smoother": "the translation of the WHOLE method FixedSizeSmoother._smooth_plates equals the hand-written size_smoother_prog (per plate: dropped / kept / one choice of plate_size of its rows, replaced by np.isin of the answer; then the OR of the kept vectors) followed by screen.subset(v).to_screen() - for ANY screen type, size / plates functions and meaning of that last call, all answers",
+    "C18_model_is_source_optimal_size_smoother": "the same for the WHOLE method OptimalSizeSmoother._smooth_plates, the size being ANY request-free (possibly raising) function of the list of plate sizes (its three numpy statements, one trusted statement run)",
+    "C18_model_is_source_plate_permutation": "the translation of the WHOLE method PlatePermutationPlateGenerator._generate_plates equals: the request-free split of the screen (force-included plates aside), then plate_permutation_prog = ONE rng.permutation of the plate names of the rows to permute, then the request-free Screen(...) construction with the answer (+ combine) - for ANY screen type and meaning of subset().to_screen(), Screen(...), combine; all answers",
+    "C18_model_is_source_sample_segregating": "the translation of the WHOLE method SampleSegregatingPermutationPlateGenerator._generate_plates equals sample_seg_prog (per sample in unique_sample_ids order: one plate, or ONE rng.permutation of its rows split by np.array_split into ceil(len/max) plates; then every row labelled with its plate number) followed by the Screen(...) construction - for ANY screen type, sample-row function and meaning of that construction; all answers; ZeroDivisionError / ValueError / IndexError paths included",
+    "C18_source_fixed_size_smoother_trace": "the translated FixedSizeSmoother._smooth_plates requests exactly one choice per plate larger than plate_size, in plate order, pool = the plate's rows, k = plate_size",
+    "C18_source_random_scorer_trace": "the trace theorem about the translated source: RandomScorer.score requests exactly one uniform per plate key, in key order, and pairs the keys with the answers in order",
+    "C18_source_balanced_holdout_trace": "the trace theorem about the translated source: the plate-balanced hold-out requests exactly one choice per unobserved plate, in plate order, pool = the plate's rows, k = ceil(size*fraction)",
 }
 ASSUMPTIONS = [
     "runtime part: numpy.random module-level functions and default_rng are looked up on the module at call time by batchie code (checked: no 'from numpy.random import <function>' in /repo/src/batchie), so patching the module attributes traps them",
     "hidden randomness that bypasses both numpy.random.<fn>/default_rng() and the global MT19937 / python random state (e.g. os.urandom, a private RandomState()) is visible only through differing outputs of the two runs",
     "hold-out model: ceil(size * fraction) is computed over exact rationals; the harness uses dyadic fractions for which the float product is exact",
     "float scores cross the wire as order keys; DBAL scores themselves are not modelled here (C05), only the sub-sampling request",
+    "source links: the hold-out theorems quantify over answers satisfying numpy's contract for rng.choice(array, k, replace=False) (k distinct elements of the array); the balanced one assumes the plates' row lists partition range(screen.size) (stated as two hypotheses; C14 proves it of Screen.plates); the random-scorer one assumes the dict's keys are distinct",
+    "source links: math.ceil(n * fraction) is the exact ceiling of n*num/den (primitive), as in the hand-written model; the DBAL link translates the sub-sampling statements only - the statements around them (shape checks, float arithmetic on the drawn indices) are not translated, but the translator refuses any identifier in them that is not on the configuration's list outside_names (their own variables, numpy array functions, logsumexp, C15's unranking kernel; not rng, nothing of numpy.random), and they stay under the runtime traps",
 ]
 EXPLANATION = (
     "Level 'other': trace conformance to a proved-explicit model plus runtime trapping.  Proved (Coq, closed under the global context): "
@@ -65,14 +82,53 @@ EXPLANATION = (
     "of the program and the answers it consumes only; execution against any generator state machine is replay of its answers; a "
     "program drawing only through its own generator neither reads nor changes an unrelated global generator state, also across two "
     "runs with arbitrary global perturbation in between; the property fails for a program served from the global state (refuted "
-    "witness).  Tied to the code for four mirrored operations (RandomScorer.score, create_random_holdout, "
-    "create_plate_balanced_holdout_set_among_masked_plates, DBAL triple sub-sampling) by TRACE CONFORMANCE: recorded requests and "
+    "witness).  Tied to the code for eight mirrored operations (RandomScorer.score, create_random_holdout, "
+    "create_plate_balanced_holdout_set_among_masked_plates, DBAL triple sub-sampling, FixedSizeSmoother / OptimalSizeSmoother."
+    "_smooth_plates, PlatePermutationPlateGenerator / SampleSegregatingPermutationPlateGenerator._generate_plates) by TRACE CONFORMANCE: recorded requests and "
     "output of the real operation = extracted model replayed on the recorded answers; answers are checked against the numpy contract. "
     "NOT proved about the implementation: that it has no hidden state.  That part is a RUNTIME check on generated inputs: every "
     "operation listed in the property is run twice with identically seeded generators under differently seeded global generators, "
     "outputs and request traces are compared, the global numpy / python generator states are compared before/after, and every call "
     "of numpy.random.<module function> or argument-less default_rng() is trapped with its batchie call site.  Not covered: "
-    "models other than SparseDrugCombo / SparseDrugComboInteraction, the nextflow pipelines, multi-process runs.")
+    "models other than SparseDrugCombo / SparseDrugComboInteraction, the nextflow pipelines, multi-process runs.  "
+    "COVERED BY PROOF since the source-translation links (theorems C18_model_is_source_*): RandomScorer.score, "
+    "create_random_holdout, create_plate_balanced_holdout_set_among_masked_plates, FixedSizeSmoother._smooth_plates, "
+    "OptimalSizeSmoother._smooth_plates, PlatePermutationPlateGenerator._generate_plates and "
+    "SampleSegregatingPermutationPlateGenerator._generate_plates (whole functions) and the triple "
+    "sub-sampling statements of dbal_fast_gauss_scoring_vectorized (the rest of that function may only mention the identifiers "
+    "listed in the configuration's outside_names - a new name such as rng, .random or default_rng there is refused) are "
+    "re-translated from the tree under test on every run by "
+    "harness/py2gal.py into programs of the model's own resumption type (Generated/SrcRand.v; cfg monad = rprog), and the "
+    "hand-written programs are proved equal to the translations (same requests in the same order, same outputs) for all "
+    "inputs.  Meaning for C18: in a translated function a draw request can only come from a primitive that is a call on "
+    "the function's OWN generator argument; the translator is fail-closed, so a module-level numpy.random function, an "
+    "argument-less default_rng(), handing rng to another callee, or any other undeclared call inside such a function is "
+    "refused and the check reports a broken obligation.  Hence for these functions 'the request trace and the output are "
+    "a function of the inputs and the answers of the given generator only' is a theorem about the translated source (it is "
+    "a `prog`, so C18_explicit_stream / exec_is_replay / frame / two_runs_interleaved apply to it as they stand), not a "
+    "runtime observation; trace conformance and the runtime traps still run for them and remain the only tie for every "
+    "other operation (SparseCover and Pairwise generators, the other four smoothers, DBAL scorer arithmetic, policy, "
+    "select_next_plate, score_chunk, sampling, CLIs).  The links trust: the translator and Lib/PyRt.v + the rprog vocabulary at the end of "
+    "Model/RandProg.v as the meaning of the Python constructs, and exactly these primitives - requests: rng.random() "
+    "(RRandom, the double as its order key), rng.choice(a, n, replace=False) (RChoice a n false), rng.choice(n, size=k, "
+    "replace=False) (RChoiceN n k false), rng.permutation(a) (RPermutation a); request-free: plates.keys() (the key list), fraction < 0 / fraction > 1 (num < 0 / "
+    "den < num), np.zeros(s.size, dtype=bool) (all-false vector), math.ceil(n * fraction) (exact ceiling of n*num/den), "
+    "np.arange(s.size) (range), s.size, s.plates, np.arange(s.size)[p.selection_vector] / p.is_observed / p.size (a plate as "
+    "(row list, observed flag); size = number of rows), selection_vector[idx] = True (numpy index-array store: IndexError "
+    "outside -n..n-1, negative indices wrap), the two Screen(...) constructions (ANY request-free function of the screen and "
+    "the selection vector, possibly raising: universally quantified in the theorems), comb(n, 3, exact=True) (binom3), "
+    "min(a, b); for the two smoothers a plate is its selection vector: p.size (count of true), p.selection_vector, "
+    "np.arange(s.size)[p.selection_vector] (positions of true), np.isin(np.arange(s.size), idx) (membership vector), "
+    "Plate(screen, v) (v), a | b (element-wise or of equal-length vectors), self.plate_size, screen.subset(v).to_screen() and "
+    "OptimalSizeSmoother's three size-picking numpy statements (ANY request-free functions, universally quantified), "
+    "logger.info ignored; for the two generators plate names / sample ids are integers: self.force_include_plate_names (an "
+    "optional list, truthiness = non-empty), ~np.isin(s.plate_names, f), np.ones(s.size, dtype=bool), np.any(~v), "
+    "s.subset(v).to_screen() / s.subset(~v).to_screen(), the Screen(...) constructions, a.combine(b) (ANY request-free "
+    "functions, universally quantified), self.max_plate_size, s.unique_sample_ids, np.arange(s.size)[s.sample_ids == i] (ANY "
+    "functions of the screen), len, math.ceil(len(a) / float(b)) (exact ceiling; ZeroDivisionError for 0), np.array_split(a, n) "
+    "(numpy's split points; ValueError unless n > 0), np.array([''] * s.size, dtype=object) (blank labels), plate_names[idx] = "
+    "f'generated_plate_{k}' (index-array store of the plate number k, IndexError outside -n..n-1).  A request whose arguments numpy rejects (k < 0, k > len(pool) without replacement) raises in "
+    "Python where the model continues with an answer; no answer satisfies the contract valid_answer for such a request.")
 TRUSTED = [
     "unittest.mock patching of numpy.random attributes and the stack walk that attributes trapped calls to files under /repo/src/batchie",
     "RecordingGenerator (python subclass of numpy.random.Generator sharing the seeded bit generator) does not change the stream",
@@ -812,7 +868,10 @@ def _ans_wire(name, r):
 def conformance(d, r1):
     """wire case + canonical implementation value for the mirrored operations, from the FIRST observed run"""
     k = d["kind"]
-    if k not in ("random_scorer", "random_holdout", "balanced_holdout", "dbal_vectorized") or len(r1["gens"]) != 1:
+    if k not in ("random_scorer", "random_holdout", "balanced_holdout", "dbal_vectorized", "smoother", "plate_permutation",
+                 "sample_segregating") or len(r1["gens"]) != 1:
+        return None, None
+    if k == "smoother" and d.get("name") not in ("FixedSize", "OptimalSize"):
         return None, None
     raised = isinstance(r1["out"], list) and r1["out"][:1] == ["raised"]
     if raised and k != "dbal_vectorized":
@@ -828,6 +887,48 @@ def conformance(d, r1):
         out = [[int(pid), float_key(float.fromhex(v[1]))] for pid, v in r1["out"]]
         return [0, [int(p) for p in plates], answers], [out, reqs]
     n = sc.size if sc is not None else 0
+    if k in ("plate_permutation", "sample_segregating"):
+        # the generators' _generate_plates runs on the unobserved part of the screen (core.py wrapper); plate names cross as
+        # their rank among the input screen's names; rows are re-identified in the output by their distinct observation values
+        sub = sc.subset_unobserved()
+        o = r1["out"] if r1["out"] is not None else []
+        if sub is None or len(o) < 6 or len(o[2]) <= 4 or len(o[5]) <= 4:
+            return None, None
+        inner = sub.to_screen()
+        name_of = dict(zip([float.fromhex(h) for h in o[2][4]], o[5][4]))      # observation value -> plate name in the output
+        if k == "plate_permutation":
+            ids = {nm: i for i, nm in enumerate(sorted(set(sc.plate_names.tolist())))}
+            enc = lambda arr: [ids[str(x)] for x in np.asarray(arr).tolist()]
+            force = d["force_include"]
+            sv = ~np.isin(inner.plate_names, force) if force else np.ones(inner.size, dtype=bool)
+            to_permute = inner.subset(sv).to_screen()
+            reqs = [[3, enc(a[0])] if nm == "permutation" else _req_wire(nm, a, kw) for nm, a, kw, _ in g.raw]
+            answers = [enc(r) if nm == "permutation" else _ans_wire(nm, r) for nm, _, _, r in g.raw]
+            out = [ids[name_of[float(x)]] for x in to_permute.observations]
+            return [5, enc(to_permute.plate_names), answers], [out, reqs]
+        reqs = [[3, [int(x) for x in np.asarray(a[0]).tolist()]] if nm == "permutation" else _req_wire(nm, a, kw) for nm, a, kw, _ in g.raw]
+        answers = [[int(x) for x in np.asarray(r).tolist()] if nm == "permutation" else _ans_wire(nm, r) for nm, _, _, r in g.raw]
+        groups = [[int(i) for i in np.arange(inner.size)[inner.sample_ids == sid]] for sid in inner.unique_sample_ids]
+        labels = [int(str(name_of[float(x)]).rsplit("_", 1)[1]) for x in inner.observations]
+        return [6, groups, int(inner.size), int(d["max_plate_size"]), answers], [[0, labels], reqs]
+    if k == "smoother":
+        # FixedSizeSmoother / OptimalSizeSmoother._smooth_plates runs on the unobserved part of the screen (core.py wrapper);
+        # its plates cross as 0/1 selection vectors, the output as the vector of the rows that survive (rows are re-identified
+        # by their distinct observation values; the observed rows the wrapper adds back have other values)
+        sub = sc.subset_unobserved()
+        o = r1["out"][2] if r1["out"] is not None else []
+        if sub is None or len(o) <= 4:
+            return None, None
+        inner = sub.to_screen()
+        pl = inner.plates
+        if d["name"] == "FixedSize":
+            t = d["plate_size"]
+        else:      # the three numpy statements of OptimalSizeSmoother that pick the size (not part of the modelled skeleton)
+            ps = np.sort(np.array([p.size for p in pl]))
+            t = int(ps[np.argmax(ps * (len(ps) - np.arange(len(ps))))])
+        out_obs = set(float.fromhex(h) for h in o[4])
+        kept = [int(float(x) in out_obs) for x in inner.observations]
+        return [4, [[int(b) for b in p.selection_vector] for p in pl], int(inner.size), int(t), answers], [kept, reqs]
     if k in ("random_holdout", "balanced_holdout"):
         # rows are re-identified by their distinct observation values
         arr = mk_arrays(d["screen"])["observations"]
